@@ -6,7 +6,7 @@ import vf, aoflib
 
 def run(ck):
     b = ck.build("aof")
-    ck.tlc("AOF", aoflib.mc_cfg(aoflib.CODE_SKIP_CONFLICT, 4 if not ck.thorough else 5, invs="TailLoss"))
+    ck.tlc("AOF", aoflib.mc_cfg(aoflib.CODE_SKIP_CONFLICT, 3 if not ck.thorough else 4, invs="TailLoss", maxcrash=2, children='{"c"}'))
     hs = [ck.replay] if ck.replay is not None else aoflib.histories(ck, 12 if ck.thorough else 3, maxhist=5 if not ck.thorough else 7)
     total = 0
     for hi, h in enumerate(hs):
